@@ -1,7 +1,7 @@
 #!/bin/bash
 # Multi-seed silence pass on the unchanged tree: every check, seeds given as arguments (default 2 3 4 5),
 # then seed 1 again so the committed evidence is the seed-1 run. Prints one line per run; non-zero exits are flagged.
-cd /verif || exit 2
+cd "$(dirname "$0")/.." || exit 2
 seeds="${@:-2 3 4 5}"
 for s in $seeds 1; do
   for id in C01 C02 C03 C04 C05 C06 C07 C08 C09 C10 C11 C12 C13 C14 C15 C16 C17 C18 C19 C20; do
